@@ -357,6 +357,33 @@ PROPS["C18"] = dict(
     explanation="proved: _build_url string construction; bounded: environ/scope parity, replace, query helpers, repr masking.",
 )
 
+PROPS["C07"] = dict(
+    modules=["common", "c07"],
+    contracts=["ensure_absolute_path", "check_path_is_file", "wsgi.Pages.ensure_absolute_path", "asgi.Pages.ensure_absolute_path"],
+    refute={"quick": [2], "thorough": [1, 2, 3]},
+    native="c07",
+    level="other",
+    trusted=["A-py-1", "A-solver", "A-pyvc"],
+    level_text="Mixed; the confinement argument itself lives in posixpath. PROVED relative to the assumed posixpath contracts: "
+               "ensure_absolute_path returns None or a path that is the configured directory or lies below it, namely the "
+               "lexical resolution of the request path (plus the trailing '/' of a directory URL), and it rejects nothing that "
+               "is inside (the code's test on relpath is exactly the 'outside' form of A-path-2 - the old two-character "
+               "prefix test is not); Pages.ensure_absolute_path keeps confinement and maps every directory URL to its "
+               "index.html; check_path_is_file answers (None, False) for a missing entry or a path below a regular file "
+               "without raising, and (stat, S_ISREG) otherwise, issuing one stat on exactly the given path. BOUNDED "
+               "(labelled): the decision logic of Files/Pages.__call__, the assumptions A-path-* themselves and the "
+               "'nothing outside is ever opened' clause are run on a real temp tree with parent/sibling secrets under an "
+               "audit hook, against a lexical reference resolver, for all paths over a 14-segment alphabet to depth 2-3.",
+    level_note="Trusted (and carrying most of the weight): os.path.join/abspath are functions of their arguments (A-path-1); "
+               "relpath(p, d) is '..' or starts with '../' exactly when p is neither d nor below d (A-path-2); POSIX "
+               "separator (A-posix); os.stat raises only FileNotFoundError / NotADirectoryError for request-dependent "
+               "reasons (A-stat); the configured directory is absolute, normalised and not the root. Files/Pages.__call__ are "
+               "not under contract (bounded only). Symbolic links inside the directory are followed (out of scope).",
+    technique="deductive verification relative to assumed posixpath contracts (string theory); bounded run on a real tree with an audit hook and a lexical reference resolver",
+    explanation="proved (relative to A-path-*): confinement and completeness of ensure_absolute_path, Pages index mapping, "
+                "check_path_is_file; bounded: app decision logic, audit of touched paths, validation of the assumptions.",
+)
+
 NOT_APPLICABLE = {
     "C06": "quantifies over schedules/interleavings (relay thread vs consumer vs closer, asyncio tasks vs ping timer) and is a "
            "bounded-liveness claim; contracts over a sequential, await-erased semantics cannot express an interleaving and "
